@@ -966,6 +966,9 @@ func c20ReplayRel(r *Result, input json.RawMessage) {
 }
 
 func c20RelSuite(r *Result, rng *rand.Rand, tier string) {
+	if !c20Only("relations") {
+		return
+	}
 	n := 400
 	if tier == "thorough" {
 		n = 4000
